@@ -98,7 +98,23 @@ func drawCase(rt *rapid.T, hostile bool, excluded map[string]bool, small bool) *
 	}
 }
 
+// flagSteered: collision classes of open findings that only fail under certain flags and are kept
+// in the schema generator; the flag drawer is steered instead (counted as an excluded draw).
+var flagSteered = map[string]bool{yanggen.ClTypedefSameName: true}
+
 func randomCase(rt *rapid.T, o yanggen.Options) *genCase {
+	steer := map[string]bool{}
+	if len(o.Excluded) > 0 {
+		ex := map[string]bool{}
+		for c, v := range o.Excluded {
+			if v && flagSteered[c] {
+				steer[c] = true
+			} else {
+				ex[c] = v
+			}
+		}
+		o.Excluded = ex
+	}
 	s := yanggen.Draw(rt, o)
 	sc, err := pipeline.NewScratch("yang")
 	if err != nil {
@@ -112,8 +128,13 @@ func randomCase(rt *rapid.T, o yanggen.Options) *genCase {
 	if o.OpenConfigStyle {
 		src = "random-oc"
 	}
+	hints := pipeline.HintsFor(s.Features)
+	if steer[yanggen.ClTypedefSameName] && s.Has("collision:"+yanggen.ClTypedefSameName) {
+		hints.ForceTypedefDefmod = true
+		s.ExcludedDraws[yanggen.ClTypedefSameName+"(without -typedef_enum_with_defmod)"]++
+	}
 	return &genCase{in: pipeline.Input{Name: src, Dir: sc.Dir, Roots: s.Roots}, source: src, text: s.Key(), key: s.Key(),
-		feats: s.Features, hints: pipeline.HintsFor(s.Features), schema: s, scratch: sc}
+		feats: s.Features, hints: hints, schema: s, scratch: sc}
 }
 
 // allFindingClasses: the collision classes of every recorded finding (static exclusion list).
